@@ -1,3 +1,5 @@
+import KmipGen.CodecSrc
+import KmipModel.ExpectCodec
 import KmipGen.Schema
 import KmipModel.WF
 import KmipModel.Encode
@@ -36,5 +38,26 @@ theorem GenC01_example_small : (canonTop KmipGen.sd_Attribute exAttr).Small = tr
 theorem GenC01_example_encodes : ∃ bs, encodeSD KmipGen.sd_Attribute exAttr = .ok bs ∧ bs.length = 64 := by
   refine ⟨_, rfl, ?_⟩
   decide
+
+end Kmip
+
+/-
+  Codec source tie (re-checked against /repo's current source on every run): the normalised source of every function of
+  the groups below, as kvscan reads it from /repo now, is the text the model was validated against (KmipModel/ExpectCodec.lean;
+  readable form in KmipModel/ExpectCodecSrc.txt). See harness/cmd/kvscan/srcdigest.go for the normalisation.
+-/
+namespace Kmip
+
+/-- decoder (decode.go, decode_core.go) -/
+theorem GenC01_codec_src_dec : KmipGen.codecSrc_dec = ExpectCodec.codecSrc_dec := by decide
+
+/-- encoder (encode.go, encode_core.go) -/
+theorem GenC01_codec_src_enc : KmipGen.codecSrc_enc = ExpectCodec.codecSrc_enc := by decide
+
+/-- struct descriptors (fields.go, types.go) -/
+theorem GenC01_codec_src_desc : KmipGen.codecSrc_desc = ExpectCodec.codecSrc_desc := by decide
+
+/-- dynamic dispatch (BuildFieldValue methods) -/
+theorem GenC01_codec_src_disp : KmipGen.codecSrc_disp = ExpectCodec.codecSrc_disp := by decide
 
 end Kmip
